@@ -31,7 +31,14 @@ def reset():
 
 
 def cases(tier):
-    return [dict(struct=s) for s in NC.structs(tier)]
+    cs = [dict(struct=s) for s in NC.structs(tier)]
+    # the same round trip after another design with the same module names was loaded and written in this process
+    cs += [dict(struct=s, hist=True) for s in NC.structs(tier)[:4]]
+    return cs
+
+
+HISTORY_DESIGN = {'Modules': {'M0': {'area': 7.5, 'center': [1.0, 2.0]}, 'M1': {'hard': True, 'rectangles': [[3.0, 3.0, 2.0, 2.0]]},
+                              'M2': {'area': {'dsp': 1.5}}}, 'Nets': [['M0', 'M1', 3.0]]}
 
 
 def dump(n):
@@ -39,6 +46,10 @@ def dump(n):
 
 
 def body(I, case):
+    if case.get('hist'):
+        import copy
+        h = Netlist(copy.deepcopy(HISTORY_DESIGN))
+        dump(h) if I.mode == 'symbolic' else h.write_yaml()
     tree, specs, nspecs = NC.build_doc(I, case['struct'])
     try:
         n = Netlist(tree)
